@@ -494,6 +494,15 @@ impl<'a> Renderer<'a> {
         match f {
             Fr::T(ti, aliased) => {
                 let t = &self.db.tables[*ti as usize % self.db.tables.len()];
+                // a CTE in scope that carries the table's name shadows the table
+                if let Some((name, sc)) = self.ctes.iter().find(|(n, _)| n == &t.name).cloned() {
+                    self.class("cte_shadows_table");
+                    if *aliased {
+                        let al = self.fresh_alias();
+                        return (format!("{} AS {}", q(&name), q(&al)), sc.into_iter().map(|mut c| { c.qual = al.clone(); c }).collect());
+                    }
+                    return (q(&name), sc.into_iter().map(|mut c| { c.qual = name.clone(); c }).collect());
+                }
                 if *aliased {
                     self.class("table_alias");
                     let al = self.fresh_alias();
@@ -969,7 +978,15 @@ impl<'a> Renderer<'a> {
                 let saved = self.ctes.clone();
                 for (k, c) in ctes.iter().take(2).enumerate() {
                     let (sql, info) = self.sel(c, false);
-                    let name = format!("c{k}");
+                    // one CTE in four takes the name of a base table (which it then shadows for the rest of the query)
+                    let mut name = format!("c{k}");
+                    if (sql.len() + k) % 4 == 0 && !self.db.tables.is_empty() {
+                        let cand = self.db.tables[sql.len() % self.db.tables.len()].name.clone();
+                        if !self.ctes.iter().any(|(n, _)| *n == cand) {
+                            name = cand;
+                            self.class("cte_named_like_table");
+                        }
+                    }
                     let sc: Scope = info
                         .out
                         .iter()
